@@ -76,9 +76,20 @@ Section Stmt.
   Lemma sim_weaken sc sc' r ls : incl sc sc' -> sim sc' r ls -> sim sc r ls.
   Proof. intros I [L S]. split; [assumption|]. intros i t Hi. apply S. apply I. assumption. Qed.
 
+  Lemma check_stmt_loopish sc s sc' :
+    loop_free_stmt s = false -> check_stmt tys np ret sc s = Some sc' -> sc' = sc.
+  Proof.
+    destruct s; try discriminate; intros _ H; cbn in H;
+      repeat match type of H with
+             | (if ?c then _ else _) = _ => destruct c; [|discriminate]
+             end; congruence.
+  Qed.
+
   Lemma check_stmt_incl sc s sc' : check_stmt tys np ret sc s = Some sc' -> incl sc sc'.
   Proof.
-    destruct s; intros H; unf_in H;
+    destruct (loop_free_stmt s) eqn:L.
+    2:{ intros H. rewrite (check_stmt_loopish _ _ _ L H). apply incl_refl. }
+    destruct s; try discriminate; intros H; unf_in H;
       repeat match type of H with
              | (if ?c then _ else _) = _ => destruct c; [|discriminate]
              | match ?c with Some _ => _ | None => _ end = _ => destruct c; [|discriminate]
@@ -238,33 +249,33 @@ Section Stmt.
   Proof.
     apply stmt_block_els_ind.
     - (* declaration *)
-      intros i t e sc sc' Hc Hs. unf_in Hc; unf_in Hs.
+      intros i t e sc sc' Hc Hs _. unf_in Hc; unf_in Hs.
       destruct (Nat.leb np i && negb (existsb (Nat.eqb i) sc) &&
                 match nth_error tys i with Some t' => ty_eqb t t' | None => false end &&
                 expr_ok tys sc e t) eqn:C; [|discriminate]. injection Hc as <-.
       apply andb_true_iff in C. destruct C as [C He]. apply andb_true_iff in C. destruct C as [C Ht].
       destruct (nth_error tys i) as [t'|] eqn:Hn; [|discriminate]. apply ty_eqb_eq in Ht. subst t'.
       destruct (cexpr_to_ok sc e t (Some t) He Hs) as (c & Ec & Sc).
-      unf. rewrite Hn, Ec. eexists _, _. split; [reflexivity|].
+      eexists _, _. split; [intros dp lp; unf; rewrite Hn, Ec; reflexivity|].
       intros r ls Hsim Hd. unf_in Hd. split; [|discriminate].
       unf. apply (store_ok sc (i :: sc) i t c r ls); try assumption.
       + apply incl_tl, incl_refl.
       + intros j [->|Hj]; auto.
       + apply Sc; assumption.
     - (* assignment *)
-      intros i e sc sc' Hc Hs. unf_in Hc; unf_in Hs.
+      intros i e sc sc' Hc Hs _. unf_in Hc; unf_in Hs.
       destruct (var_ty tys sc i) as [t|] eqn:Hv; [|discriminate].
       destruct (expr_ok tys sc e t) eqn:He; [|discriminate]. injection Hc as <-.
       destruct (var_ty_spec _ _ _ Hv) as [Hi Hn]. rewrite Hn in Hs.
       destruct (cexpr_to_ok sc e t (Some t) He Hs) as (c & Ec & Sc).
-      unf. rewrite Hn, Ec. eexists _, _. split; [reflexivity|].
+      eexists _, _. split; [intros dp lp; unf; rewrite Hn, Ec; reflexivity|].
       intros r ls Hsim Hd. unf_in Hd. split; [|discriminate].
       unf. apply (store_ok sc sc i t c r ls); try assumption.
       + apply incl_refl.
       + auto.
       + apply Sc; assumption.
     - (* compound assignment *)
-      intros i op e sc sc' Hc Hs. unf_in Hc; unf_in Hs.
+      intros i op e sc sc' Hc Hs _. unf_in Hc; unf_in Hs.
       destruct (var_ty tys sc i) as [t|] eqn:Hv; [|discriminate].
       destruct (expr_ok tys sc e t) eqn:He; [|discriminate]. injection Hc as <-.
       destruct (var_ty_spec _ _ _ Hv) as [Hi Hn]. rewrite Hn in Hs.
@@ -273,7 +284,7 @@ Section Stmt.
       assert (Ho : exists o, arith_op op t = Some o).
       { destruct t; [simpl; eauto|]. destruct op; simpl; eauto. discriminate. }
       destruct Ho as (o & Eo).
-      unf. rewrite Hn, Ec, Eo. eexists _, _. split; [reflexivity|].
+      eexists _, _. split; [intros dp lp; unf; rewrite Hn, Ec, Eo; reflexivity|].
       intros r ls Hsim Hd. unf_in Hd. apply app_nil_inv in Hd. destruct Hd as [Hd1 Hd2].
       split; [|discriminate].
       pose proof Hsim as [Hlen Hsv]. destruct (Hsv i t Hi Hn) as [Vi Li].
@@ -293,31 +304,33 @@ Section Stmt.
       simpl. rewrite <- app_comm_cons, <- app_assoc in S. simpl in S.
       unf. destruct (eval r e) as [v| |]; simpl in *; assumption.
     - (* if *)
-      intros c th Hth el Hel sc sc' Hc Hs. unf_in Hc; unf_in Hs.
+      intros c th Hth el Hel sc sc' Hc Hs Hlf. unf_in Hc; unf_in Hs. simpl in Hlf.
+      apply andb_true_iff in Hlf. destruct Hlf as [Lth Lel].
       destruct (cond_ok tys sc c && check_block tys np ret sc th && check_els tys np ret sc el) eqn:C;
         [|discriminate]. injection Hc as <-.
       apply andb_true_iff in C. destruct C as [C Cel]. apply andb_true_iff in C. destruct C as [Cc Cth].
       apply app_nil_inv in Hs. destruct Hs as [Hsc Hs]. apply app_nil_inv in Hs. destruct Hs as [Hsth Hsel].
       destruct (ccond_ok sc c Cc Hsc) as (cc & Ecc & Scc).
-      destruct (Hth sc Cth Hsth) as (cth & dth & Eth & Sth).
-      destruct (Hel sc Cel Hsel) as (cel & he & dall & Eel & Sel).
-      assert (G : exists code d, cstmt tys ret (SIf c th el) = Some (code, d) /\
+      destruct (Hth sc Cth Hsth Lth) as (cth & dth & Eth & Sth).
+      destruct (Hel sc Cel Hsel Lel) as (cel & he & dall & Eel & Sel).
+      assert (G : exists code d, (forall dp lp, cstmt tys ret dp lp (SIf c th el) = Some (code, d)) /\
                   exists celo tail,
                     code = cc ++ [If None cth celo] ++ tail /\
                     match celo with Some e => e | None => [] end = cel /\
                     (tail = [] \/ (d = true /\ dth = true /\ dall = true)) /\
                     (d = true -> dth = true /\ dall = true)).
-      { unf. rewrite Ecc, Eth. destruct el as [|eb|c2 th2 el2].
-        - rewrite cels_none in Eel. injection Eel as <- <- <-.
-          eexists _, _. split; [reflexivity|]. exists None, []. repeat split; auto; discriminate.
-        - rewrite Eel. eexists _, _. split; [reflexivity|].
+      { destruct el as [|eb|c2 th2 el2].
+        - pose proof (Eel 0%nat None) as E0. rewrite cels_none in E0. injection E0 as <- <- <-.
+          eexists _, _. split; [intros dp lp; unf; rewrite Ecc, Eth; reflexivity|].
+          exists None, []. repeat split; auto; discriminate.
+        - eexists _, _. split; [intros dp lp; rewrite cstmt_if, Ecc, Eth, Eel; reflexivity|].
           exists (Some cel), (if he && dth && dall then [Unreachable] else []).
           split; [reflexivity|]. split; [reflexivity|]. split.
           + destruct (he && dth && dall) eqn:A; [right|left; reflexivity].
             apply andb_true_iff in A. destruct A as [A ->]. apply andb_true_iff in A. destruct A as [_ ->]. auto.
           + intros A. apply andb_true_iff in A. destruct A as [A A2]. apply andb_true_iff in A.
             destruct A as [_ A1]. auto.
-        - rewrite Eel. eexists _, _. split; [reflexivity|].
+        - eexists _, _. split; [intros dp lp; rewrite cstmt_if, Ecc, Eth, Eel; reflexivity|].
           exists (Some cel), (if he && dth && dall then [Unreachable] else []).
           split; [reflexivity|]. split; [reflexivity|]. split.
           + destruct (he && dth && dall) eqn:A; [right|left; reflexivity].
@@ -344,43 +357,50 @@ Section Stmt.
         * intros z Ez Tz. apply (proj2 (Bth z Ez Tz) D1).
         * intros z Ez Tz. apply (proj2 (Bel z Ez Tz) D2).
     - (* return *)
-      intros e sc sc' Hc Hs. unf_in Hc; unf_in Hs.
+      intros e sc sc' Hc Hs _. unf_in Hc; unf_in Hs.
       destruct (expr_ok tys sc e ret) eqn:He; [|discriminate]. injection Hc as <-.
       destruct (cexpr_to_ok sc e ret None He Hs) as (c & Ec & Sc).
-      unf. rewrite Ec. eexists _, _. split; [reflexivity|].
+      eexists _, _. split; [intros dp lp; unf; rewrite Ec; reflexivity|].
       intros r ls Hsim Hd. unf_in Hd. specialize (Sc r ls Hsim Hd []). split.
       + unf. destruct (eval r e) as [v| |]; simpl; [| |exact I].
         * destruct Sc as [V X]. split; [assumption|].
           rewrite exec_l_app, X, exec_l_cons, exec_return. reflexivity.
         * rewrite exec_l_app, Sc. reflexivity.
       + intros _ r'. unf. destruct (eval r e); simpl; discriminate.
+    - (* loops, break, continue: outside the loop-free guard *)
+      intros c b _ sc sc' _ _ H. discriminate.
+    - intros b _ sc sc' _ _ H. discriminate.
+    - intros i lim t start stop step b _ sc sc' _ _ H. discriminate.
+    - intros sc sc' _ _ H. discriminate.
+    - intros sc sc' _ _ H. discriminate.
     - (* empty block *)
-      intros sc _ _. eexists _, _. split; [reflexivity|].
+      intros sc _ _ _. eexists _, _. split; [intros dp lp; reflexivity|].
       intros r ls Hsim _. split; [apply osim_skip; assumption|discriminate].
     - (* s ; rest *)
-      intros s Hs b Hb sc Hc Hf. unf_in Hc; unf_in Hf.
+      intros s Hs b Hb sc Hc Hf Hlf. unf_in Hc; unf_in Hf. simpl in Hlf.
+      apply andb_true_iff in Hlf. destruct Hlf as [Ls Lb].
       destruct (check_stmt tys np ret sc s) as [sc'|] eqn:Cs; [|discriminate].
       apply app_nil_inv in Hf. destruct Hf as [Hf1 Hf2].
-      destruct (Hs sc sc' Cs Hf1) as (cs & ds & Ecs & Ss).
-      destruct (Hb sc' Hc Hf2) as (cr & dr & Ecr & Sr).
+      destruct (Hs sc sc' Cs Hf1 Ls) as (cs & ds & Ecs & Ss).
+      destruct (Hb sc' Hc Hf2 Lb) as (cr & dr & Ecr & Sr).
       pose proof (check_stmt_incl _ _ _ Cs) as Inc.
-      unf. rewrite Ecs. destruct ds.
+      destruct ds.
       + (* the statement diverges: the rest is not compiled, and never runs *)
-        eexists _, _. split; [reflexivity|].
+        eexists _, _. split; [intros dp lp; rewrite cblock_cons, Ecs; reflexivity|].
         intros r ls Hsim Hd. unf_in Hd. apply app_nil_inv in Hd. destruct Hd as [Hd1 Hd2].
         destruct (Ss r ls Hsim Hd1) as [O N]. specialize (N eq_refl).
-        unf. destruct (exec_stmt fo tys r s) as [[r'|v]| |]; simpl in *.
+        unf. destruct (exec_stmt fo tys r s) as [[r'|v|r'|r']| |]; simpl in *; try contradiction.
         * exfalso. apply (N r'). reflexivity.
         * split; [assumption|]. intros _ r'. discriminate.
         * split; [assumption|]. intros _ r'. discriminate.
         * split; [exact I|]. intros _ r'. discriminate.
-      + rewrite Ecr. eexists _, _. split; [reflexivity|].
+      + eexists _, _. split; [intros dp lp; rewrite cblock_cons, Ecs, Ecr; reflexivity|].
         intros r ls Hsim Hd. unf_in Hd. apply app_nil_inv in Hd. destruct Hd as [Hd1 Hd2].
         destruct (Ss r ls Hsim Hd1) as [O _].
-        unf. destruct (exec_stmt fo tys r s) as [[r'|v]| |]; simpl in *.
+        unf. destruct (exec_stmt fo tys r s) as [[r'|v|r'|r']| |]; simpl in *; try contradiction.
         * destruct O as (ls' & X & S').
           destruct (Sr r' ls' S' Hd2) as [O' N']. split; [|assumption].
-          destruct (exec_block fo tys r' b) as [[r''|v]| |]; simpl in *.
+          destruct (exec_block fo tys r' b) as [[r''|v|r''|r'']| |]; simpl in *; try contradiction.
           -- destruct O' as (ls'' & X' & S''). exists ls''. split.
              ++ rewrite exec_l_app, X. assumption.
              ++ apply (sim_weaken sc sc'); assumption.
@@ -392,21 +412,22 @@ Section Stmt.
         * split; [|intros _ r'; discriminate]. rewrite exec_l_app, O. reflexivity.
         * split; [exact I|intros _ r'; discriminate].
     - (* no else *)
-      intros sc _ _. eexists _, _, _. split; [reflexivity|].
+      intros sc _ _ _. eexists _, _, _. split; [intros dp lp; reflexivity|].
       intros r ls Hsim _. split; [apply osim_skip; assumption|discriminate].
     - (* else *)
-      intros b Hb sc Hc Hf. unf_in Hc; unf_in Hf.
-      destruct (Hb sc Hc Hf) as (cb & db & Ecb & Sb).
-      unf. rewrite Ecb. eexists _, _, _. split; [reflexivity|].
-      intros r ls Hsim Hd. unf_in Hd. apply Sb; assumption.
+      intros b Hb sc Hc Hf Hlf. unf_in Hc; unf_in Hf. simpl in Hlf.
+      destruct (Hb sc Hc Hf Hlf) as (cb & db & Ecb & Sb).
+      eexists _, _, _. split; [intros dp lp; rewrite cels_else, Ecb; reflexivity|].
+      intros r ls Hsim Hd. unf_in Hd. unf. apply Sb; assumption.
     - (* else if *)
-      intros c th Hth el Hel sc Hc Hs. unf_in Hc; unf_in Hs.
+      intros c th Hth el Hel sc Hc Hs Hlf. unf_in Hc; unf_in Hs. simpl in Hlf.
+      apply andb_true_iff in Hlf. destruct Hlf as [Lth Lel].
       apply andb_true_iff in Hc. destruct Hc as [C Cel]. apply andb_true_iff in C. destruct C as [Cc Cth].
       apply app_nil_inv in Hs. destruct Hs as [Hsc Hs]. apply app_nil_inv in Hs. destruct Hs as [Hsth Hsel].
       destruct (ccond_ok sc c Cc Hsc) as (cc & Ecc & Scc).
-      destruct (Hth sc Cth Hsth) as (cth & dth & Eth & Sth).
-      destruct (Hel sc Cel Hsel) as (cel & he & dall & Eel & Sel).
-      unf. rewrite Ecc, Eth, Eel. eexists _, _, _. split; [reflexivity|].
+      destruct (Hth sc Cth Hsth Lth) as (cth & dth & Eth & Sth).
+      destruct (Hel sc Cel Hsel Lel) as (cel & he & dall & Eel & Sel).
+      eexists _, _, _. split; [intros dp lp; rewrite cels_elif, Ecc, Eth, Eel; reflexivity|].
       intros r ls Hsim Hd. unf_in Hd. apply app_nil_inv in Hd. destruct Hd as [Hdc Hd].
       pose proof (Scc r ls Hsim Hdc) as Xc.
       assert (Bth : forall z, eval r c = Ok (VI z) -> truthy z = true ->
